@@ -1,9 +1,25 @@
-"""C03 — runtime property; see harness/rt.py"""
-from . import rt
+"""C03 — runtime property; see harness/rt.py.  The payload registry of MetaRunner (register_payload and the four
+life-cycle methods) is additionally tied by translation: gen/Gen_registry.v is regenerated from
+src/cobald/daemon/runners/meta_runner.py on every run and props/C03_tie.v proves, for all interleavings over any
+number of runs of one runtime object, that registering never raises, that payloads registered between runs are
+queued and flushed to the next run's runners, and that nothing is handed to dead runners between runs."""
+import os
+
+from . import common, rt
 
 ID = "C03"
 COQ_TARGETS = ["props/C03.vo"]
+TIE_TARGETS = ["props/C03_tie.vo"]
+
+
+def regen(chk):
+    from py2coq import units
+    res = units.regen(common.REPO, os.path.join(common.COQDIR, "gen"), ["Gen_registry.v"])
+    chk.coverage["translator"] = res
+    bad = [v for v in res.values() if v != "ok"]
+    if bad:
+        raise RuntimeError(bad[0])
 
 
 def main(tier=None, seed=None, replay=None):
-    return rt.main(ID, COQ_TARGETS, tier=tier, seed=seed, replay=replay)
+    return rt.main(ID, COQ_TARGETS, tier=tier, seed=seed, replay=replay, tie_targets=TIE_TARGETS, regen=regen)
